@@ -3,7 +3,8 @@
   with the tag + dependency outside estimate, 1-best closed set / n-best mode, goal list.
   Categories are ids (`Nat`), scores are `Int` (the harness feeds the C++ exactly representable
   floats `k * 2^-s` and the model `k`), back-pointers are values (`Deriv`).
-  The tie-breaking of `std::priority_queue` is the parameter `pick`.
+  The agenda discipline (`std::priority_queue`) is the parameter `pick`; `pickHeap` is libstdc++'s
+  binary heap, `pickFirstMax` the simplest admissible one.
 -/
 namespace Depccg
 namespace Search
@@ -149,19 +150,32 @@ def binaryItems (g : Grammar) (s : Sent) (l r : Item) : List Item :=
 
 structure St where
   agenda : List Item
-  chart : List Item
+  chart : List Item           -- every item that entered the chart, most recent first
   goal : List Item
   popped : List Item          -- trace, most recent first
   steps : Nat
   tie : Bool := false         -- did two agenda items ever share the maximal priority at a pop?
   deriving Repr
 
-/-- what is pushed when `it` has just entered the chart -/
+/-- keys in the order of their first occurrence -/
+def firstSeen (keys : List Nat) : List Nat :=
+  keys.foldl (fun acc k => if acc.elem k then acc else acc ++ [k]) []
+
+/-- the chart items satisfying `p`, in the order in which `parse_sentence` walks them:
+    cell after cell in the order in which the cells were first touched
+    (`cells_starting_at` / `cells_ending_at` are vectors filled on first access; for a fixed start
+    or a fixed end a cell is determined by its span length), inside a cell the most recent item
+    first (`push_front`) -/
+def neighbours (chart : List Item) (p : Item → Bool) : List Item :=
+  let cand := chart.filter p
+  (firstSeen (cand.reverse.map (·.len))).flatMap fun len => cand.filter (fun o => o.len == len)
+
+/-- what is pushed when `it` has just entered the chart, in the order of the pushes -/
 def expand (g : Grammar) (s : Sent) (cfg : Cfg) (chart : List Item) (it : Item) : List Item :=
   (if it.len = s.n ∧ s.roots.elem it.cat then [finItem s it] else [])
   ++ (if s.n = 1 ∨ it.len ≠ s.n then unaryItems g cfg it else [])
-  ++ (chart.filter fun o => o.start = it.stop).flatMap (fun o => binaryItems g s it o)
-  ++ (chart.filter fun o => o.stop = it.start).flatMap (fun o => binaryItems g s o it)
+  ++ (neighbours chart fun o => o.start == it.stop).flatMap (fun o => binaryItems g s it o)
+  ++ (neighbours chart fun o => o.stop == it.start).flatMap (fun o => binaryItems g s o it)
 
 /-- already closed? (1-best mode only) -/
 def inChart (chart : List Item) (it : Item) : Bool :=
@@ -169,12 +183,15 @@ def inChart (chart : List Item) (it : Item) : Bool :=
 
 def inGoal (goal : List Item) (it : Item) : Bool := goal.any fun o => o.cat = it.cat
 
-/-- a `pick` removes one element of maximal priority from a non-empty agenda -/
-abbrev Pick := List Item → Option (Item × List Item)
+/-- an agenda discipline: `pop` removes one element of maximal priority from a non-empty agenda,
+    `push new old` adds the items `new` (in this order) to the agenda `old` -/
+structure Pick where
+  pop : List Item → Option (Item × List Item)
+  push : List Item → List Item → List Item
 
 def stepWith (pick : Pick) (g : Grammar) (s : Sent) (cfg : Cfg) (st : St) : Option St :=
   if cfg.nbest ≤ st.goal.length then none else
-  match pick st.agenda with
+  match pick.pop st.agenda with
   | none => none
   | some (it, rest) =>
     let st := { st with agenda := rest, popped := it :: st.popped, steps := st.steps + 1,
@@ -184,7 +201,7 @@ def stepWith (pick : Pick) (g : Grammar) (s : Sent) (cfg : Cfg) (st : St) : Opti
       else some { st with goal := it :: st.goal }
     else if cfg.nbest ≤ 1 ∧ inChart st.chart it then some st
     else
-      some { st with chart := it :: st.chart, agenda := expand g s cfg st.chart it ++ st.agenda }
+      some { st with chart := it :: st.chart, agenda := pick.push (expand g s cfg st.chart it) st.agenda }
 
 def loop (pick : Pick) (g : Grammar) (s : Sent) (cfg : Cfg) : Nat → St → St
   | 0, st => st
@@ -193,13 +210,14 @@ def loop (pick : Pick) (g : Grammar) (s : Sent) (cfg : Cfg) : Nat → St → St
     | none => st
     | some st' => loop pick g s cfg fuel st'
 
-def init (s : Sent) (cfg : Cfg) : St :=
-  { agenda := leafItems s cfg, chart := [], goal := [], popped := [], steps := 0 }
+def init (pick : Pick) (s : Sent) (cfg : Cfg) : St :=
+  { agenda := pick.push (leafItems s cfg) [], chart := [], goal := [], popped := [], steps := 0 }
 
-/-- stable insertion by priority, descending (`list::sort` with `score() >`) -/
+/-- stable insertion by priority, descending (`std::list::sort` with `score() >` is stable; the
+    goal cell is filled with `push_front`, i.e. it is `goal` as kept here) -/
 def insertDesc (it : Item) : List Item → List Item
   | [] => [it]
-  | o :: os => if o.prio < it.prio then it :: o :: os else o :: insertDesc it os
+  | o :: os => if o.prio ≤ it.prio then it :: o :: os else o :: insertDesc it os
 
 def sortDesc (l : List Item) : List Item := l.foldr insertDesc []
 
@@ -210,10 +228,11 @@ structure Outcome where
   tie : Bool
 
 def runWith (pick : Pick) (g : Grammar) (s : Sent) (cfg : Cfg) : Outcome :=
-  let st := loop pick g s cfg cfg.maxStep (init s cfg)
+  let st := loop pick g s cfg cfg.maxStep (init pick s cfg)
   { results := sortDesc st.goal, popped := st.popped.reverse, steps := st.steps, tie := st.tie }
 
-/-- the driver's `pick`: the first element of maximal priority -/
+/-! ### the simplest agenda: a list, the first element of maximal priority is taken -/
+
 def maxPrio : List Item → Option Int
   | [] => none
   | x :: xs => some (xs.foldl (fun m i => max m i.prio) x.prio)
@@ -226,12 +245,78 @@ def removeFirst (p : Item → Bool) : List Item → Option (Item × List Item)
     | some (y, rest) => some (y, x :: rest)
     | none => none
 
-def pickFirstMax : Pick := fun l =>
+def popFirstMax (l : List Item) : Option (Item × List Item) :=
   match maxPrio l with
   | none => none
   | some m => removeFirst (fun i => i.prio == m) l
 
-def run (g : Grammar) (s : Sent) (cfg : Cfg) : Outcome := runWith pickFirstMax g s cfg
+def pickFirstMax : Pick := { pop := popFirstMax, push := fun new old => new ++ old }
+
+/-! ### libstdc++'s `std::priority_queue<cell_item>` : a binary max-heap in a vector
+
+`push` = `push_back` + `std::push_heap` (`__push_heap`: the new value climbs while its parent is
+strictly smaller); `pop` = `std::pop_heap` + `pop_back` (`__adjust_heap`: the hole left by the root
+sinks to the bottom, always towards the child that is not smaller than its sibling - the right one on
+a tie -, then the former last element is put into the hole and climbs). Written with swaps: the
+travelling value is never compared with itself, so the arrangements are those of the hole
+formulation. -/
+
+/-- `__push_heap` from index `i` (fuel ≥ depth of `i`) -/
+def siftUp (a : Array Item) : Nat → Nat → Array Item
+  | 0, _ => a
+  | fuel + 1, i =>
+    if i = 0 then a else
+    let p := (i - 1) / 2
+    match a[p]?, a[i]? with
+    | some x, some v => if x.prio < v.prio then siftUp (a.swapIfInBounds p i) fuel p else a
+    | _, _ => a
+
+def heapPush (a : Array Item) (v : Item) : Array Item :=
+  siftUp (a.push v) (a.size + 1) a.size
+
+/-- the sinking phase of `__adjust_heap` on the first `len` elements; returns the final hole -/
+def sink (len : Nat) (a : Array Item) : Nat → Nat → Array Item × Nat
+  | 0, h => (a, h)
+  | fuel + 1, h =>
+    if h < (len - 1) / 2 then
+      let c := 2 * (h + 1)
+      let c := match a[c]?, a[c - 1]? with
+        | some r, some l => if r.prio < l.prio then c - 1 else c
+        | _, _ => c
+      sink len (a.swapIfInBounds h c) fuel c
+    else if len % 2 = 0 ∧ h = (len - 2) / 2 then
+      (a.swapIfInBounds h (2 * (h + 1) - 1), 2 * (h + 1) - 1)
+    else (a, h)
+
+/-- `top()` + `pop()` -/
+def heapPop (a : Array Item) : Option (Item × Array Item) :=
+  match a[0]? with
+  | none => none
+  | some top =>
+    if a.size = 1 then some (top, #[]) else
+    let b := (a.swapIfInBounds 0 (a.size - 1)).pop
+    let (b, h) := sink b.size b b.size 0
+    some (top, siftUp b (h + 1) h)
+
+/-- the agenda list is the heap's vector. `pop` must return a maximal element for *every* list
+    (`PickOK`), so it checks that the front is maximal - which it is whenever the list was built by
+    `push`/`pop` alone, as in every run - and otherwise falls back to `popFirstMax` -/
+def popHeap (l : List Item) : Option (Item × List Item) :=
+  match l with
+  | [] => none
+  | top :: _ =>
+    if l.all (fun o => o.prio ≤ top.prio) then
+      match heapPop l.toArray with
+      | some (it, rest) => some (it, rest.toList)
+      | none => none
+    else popFirstMax l
+
+def pushHeap (new old : List Item) : List Item := (new.foldl heapPush old.toArray).toList
+
+def pickHeap : Pick := { pop := popHeap, push := pushHeap }
+
+/-- the driver's search: the agenda of the real code -/
+def run (g : Grammar) (s : Sent) (cfg : Cfg) : Outcome := runWith pickHeap g s cfg
 
 end Search
 end Depccg
